@@ -1,6 +1,8 @@
 #ifndef NMTOOLS_DEF_HPP
 #define NMTOOLS_DEF_HPP
 
+#include "nmtools/verif.hpp"
+
 // this file may be used to resolve size_t
 // for example, avr gcc should include <stddef.h>
 // c++ for opencl can't include but already have size_t
@@ -87,6 +89,14 @@ namespace nmtools
 
         constexpr clipped_integer_t& operator=(T other)
         {
+            #ifdef NMTOOLS_VERIF
+            if (other > Max) {
+                NMTOOLS_VERIF_EVENT(2,other,Max);
+            }
+            if (other < Min) {
+                NMTOOLS_VERIF_EVENT(2,other,Min);
+            }
+            #endif
             *this = clipped_integer_t{other};
 
             return *this;
